@@ -603,6 +603,9 @@ def unit_rewrites(ud, rel, s, rw):
         # T10: the two adapter-chain idioms -> helpers with assumed contracts (bodies are the original expressions)
         s = rw.regex('T10', s, r'self\.expr\.clone\(\)\.take\((\d+)\)\.collect::<String>\(\)', r'verif_peek_str(&self.expr, \1)')
         s = rw.regex('T10', s, r'self\.expr\.by_ref\(\)\.take\((\d+)\)\.for_each\(drop\)', r'verif_skip(&mut self.expr, \1)')
+        # T18: char / &str -> String conversions without a vstd spec -> helpers with assumed contracts (bodies = the original calls)
+        s = rw.literal('T18', s, 'current_char?.to_string()', 'verif_char_string(current_char?)')
+        s = rw.literal('T18', s, '"0".to_string()', 'verif_str_string("0")')
         # T17: `impl Iterator for Tokenizer { type Item = Token; fn next .. }` -> inherent impl (vstd attaches its prophetic
         # iterator laws to every `Iterator::next`; the body of `next` is unchanged)
         s = rw.regex('T17', s, r"impl<'a> Iterator for Tokenizer<'a> \{\s*type Item = Token;", "impl<'a> Tokenizer<'a> {")
